@@ -5,6 +5,7 @@
 memlib.run_family drives generation/shrinking/evidence; the checks pass `runner=memx_runner(mode)`."""
 import functools
 import itertools
+import os
 
 from . import lib, memlib
 
@@ -94,3 +95,109 @@ def tcp_sample(ctx, d, pid, cases, timeout=900, max_ambiguous=6):
     cov = dict(tcp_cases=len(tcases), tcp_ok=n_ok, tcp_steps=steps, tcp_cases_with_boundary_steps=n_amb,
                tcp_inconclusive=n_inconcl)
     return failing, cov
+
+
+# ----------------------------------------------------------------------------- concurrent first-SELECT
+
+RACE_SHARDS = 1024     # the server's default ShardNum: NewMemDb is then slow enough to be a real window
+
+
+def _race_env():
+    # goroutine parallelism even on a small machine (OS threads time-slice)
+    return {"GOMAXPROCS": str(max(4, os.cpu_count() or 1))}
+
+
+def race_run(d, lines, mode, tag="race", timeout=600):
+    """run RACE lines (harness selrace, real clock, real parallelism) and replay the trace through
+    the model; returns (mismatching dict name->detail, trace text, error-or-None, #steps, #nil notes)"""
+    prog, out, ver = d / (tag + ".prog"), d / (tag + ".trace"), d / (tag + ".verdict")
+    prog.write_text("\n".join(lines) + "\n")
+    for f in (out, ver):
+        if f.exists():
+            f.unlink()
+    rc, log = lib.sh("%s selrace %s %s %s %s %d" % (lib.BUILD / "harness", prog, out, d, mode, RACE_SHARDS), cwd=d,
+                     timeout=timeout, extra_env=_race_env())
+    if rc != 0 or not out.exists():
+        return {}, out.read_text() if out.exists() else "", "selrace rc=%s log=%s" % (rc, log[-1500:]), 0, 0
+    rc, log = lib.sh("%s mem %s %s" % (lib.BUILD / "modelrun", out, ver), cwd=d, timeout=timeout)
+    if rc != 0 or not ver.exists():
+        return {}, out.read_text(), "modelrun rc=%s log=%s" % (rc, log[-1500:]), 0, 0
+    trace = out.read_text()
+    return (memlib.mismatching(ver.read_text().splitlines()), trace, None,
+            sum(1 for l in trace.splitlines() if l.startswith("S ")),
+            sum(1 for l in trace.splitlines() if l.startswith("NOTE nil-database")))
+
+
+def race_describe(line):
+    fs = line.split()
+    return ("fresh server with %s databases; %s connections (through Manager.Handle) released together: each sends SELECT i then "
+            "SET k<c> v<c>-db<i>, for i in [%s] (indexes nobody selected before); then every connection GETs every key, and a late "
+            "connection SELECTs i and GETs every key: every GET must return the value" % (fs[2], fs[3], fs[4]))
+
+
+def race_sample(ctx, d, pid, lines, mode):
+    """Returns (failing-or-None, coverage)."""
+    ok, log = lib.ensure_harness("harness")
+    if not ok:
+        return dict(kind="tie-broken", what="real-clock harness build failed: " + log[-2000:]), {}
+    mm, trace, err, steps, nils = race_run(d, lines, mode)
+    cov = {"race_%s_servers" % mode: len(lines), "race_%s_steps" % mode: steps,
+           "race_%s_trials" % mode: sum(len(l.split()[4].split(",")) for l in lines),
+           "race_%s_nil_databases_in_dump" % mode: nils}
+    if err:
+        return dict(kind="race-harness-died", detail=err), cov
+    if not mm:
+        return None, cov
+    name = sorted(mm)[0]
+    line = [l for l in lines if l.split()[1] == name][0]
+    # shrink: fewer connections / a single index, as long as it still fails within a few attempts
+    fs = line.split()
+    first = fs[4].split(",")[0]
+    best = line
+    for cand in ("RACE %s %s 2 %s" % (fs[1], fs[2], first), "RACE %s %s %s %s" % (fs[1], fs[2], fs[3], first)):
+        hit = False
+        for _ in range(15):
+            m2, _, e2, _, _ = race_run(d, [cand], mode, tag="raceshrink", timeout=120)
+            if e2 or m2:
+                hit = True
+                break
+        if hit:
+            best = cand
+            break
+    m3, t3, e3, _, _ = race_run(d, [best], mode, tag="racefinal", timeout=120)
+    if not (m3 or e3):
+        for _ in range(20):
+            m3, t3, e3, _, _ = race_run(d, [best], mode, tag="racefinal", timeout=120)
+            if m3 or e3:
+                break
+    detail = (m3 or mm).get(name, mm[name]) if not e3 else e3
+    tl = t3.splitlines() if (m3 or e3) else trace.splitlines()
+    step = None
+    import re
+    ms = re.search(r"step=(\d+)", detail or "")
+    if ms:
+        step = int(ms.group(1))
+    slines = [l for l in tl if l.startswith("S ")]
+    excerpt = slines[max(0, (step or 1) - 12):(step or 1)] if slines else []
+    failing = dict(kind="concurrent-first-select", race_line=best, original_line=line, mode=mode, detail=detail,
+                   readable=[race_describe(best)] + memlib.decode_case(
+                       ["C %s 0 %s" % (l.split()[3], " ".join(l.split("|")[0].split()[4:])) for l in excerpt]) +
+                            ["observed reply of the last command above: " + (excerpt[-1].split("|")[1].strip() if excerpt else "?")],
+                   n_mismatching_servers=len(mm),
+                   note="the trace is one linearization of the concurrent run; the model (C20_one_keyspace_per_index) gives the same "
+                        "replies for every linearization; the failure is timing dependent: --replay repeats the scenario up to 25 times")
+    return failing, cov
+
+
+def race_replay(ctx, d, replay):
+    ok, log = lib.ensure_harness("harness")
+    lib.ensure_modelrun()
+    hits = 0
+    for k in range(25):
+        mm, trace, err, _, _ = race_run(d, [replay["race_line"]], replay.get("mode", "handle"), tag="racereplay", timeout=120)
+        if err or mm:
+            hits += 1
+            print("attempt %d: %s" % (k + 1, err or list(mm.values())[0]))
+            break
+    print("replayed %s: %s" % (replay["race_line"], "VIOLATED (implementation disagrees with the model)" if hits else "no disagreement in 25 attempts"))
+    return 1 if hits else 0
